@@ -12,7 +12,11 @@ all inputs).  Tie:
   (3) real gensquashfs / tar2sqfs build images from generated trees hitting the quantifier's boundaries; each image goes
       through harness/unz.c -> `sqfsmodel c03 validate` (the executable invariant list, written from format.adoc) which
       must report nothing; `sqfsmodel c03 parse` is compared with the generated tree (attributes, link counts, xattrs, every
-      file's content reassembled from the unpacked blocks) and with rdsquashfs.
+      file's content reassembled from the unpacked blocks) and with rdsquashfs.  Jobs with `-X` per compressor reach every
+      write_options path; the compressor options block of *every* image is decoded here (copt_problems: presence flag,
+      uncompressed block at 96, payload size and field ranges per format.adoc, fields equal to what the command line asks
+      for).  The mixed trees carry hard links to fifos / sockets / symlinks / device nodes and files (pack file `link`
+      lines, tar LNKTYPE): two paths, one inode, link count = number of paths (validator's nlink rule + compare_tree).
 """
 import concurrent.futures as cf
 import io, json, os, struct, subprocess, tarfile, time
@@ -1092,6 +1096,7 @@ class Tree:
     def __init__(self):
         self.nodes = {}          # path -> dict
         self.files = {}          # source name -> bytes
+        self.links = []          # (link path, target path): hard links, also to fifos / sockets / symlinks / device nodes
 
     def ensure_parents(self, path):
         parts = path.strip("/").split("/")
@@ -1154,6 +1159,21 @@ def build_tree(rng, shape, bs):
             else:
                 t.add(nm + "_dir", type="dir", mode=rng.choice([0o755, 0o700, 0o1777]), uid=ids(), gid=ids(),
                       xattrs=[("user.dirattr", b"1")] if rng.random() < 0.3 else [])
+        # hard links to inodes of every kind but directories (pack file `link` lines since /repo 99d70b1, tar LNKTYPE): the
+        # link count of a fifo / socket / symlink / device inode then exceeds 1 (extended inode), two paths share one inode
+        cand = {}
+        for p in sorted(t.nodes):
+            ty = t.nodes[p]["type"]
+            if ty != "dir":
+                cand.setdefault({"cdev": "dev", "bdev": "dev"}.get(ty, ty), []).append(p)
+        k = 0
+        for ty in ("fifo", "slink", "dev", "sock", "file"):
+            for tp in rng.sample(cand.get(ty, []), min(len(cand.get(ty, [])), 2 if ty != "file" else 1)):
+                for _ in range(rng.choice([1, 1, 2])):
+                    lp = ["/hl_%d", "/zz_links/l%d", "/a/a_early/l%d", "/d/e/f/l%d"][k % 4] % k
+                    k += 1
+                    t.ensure_parents(lp)
+                    t.links.append((lp, tp))
     elif shape["kind"] == "bigdir":
         n, nl = shape["n"], shape.get("namelen", 8)
         for i in range(n):
@@ -1225,6 +1245,8 @@ def write_inputs(t, d):
             for k, v in n["xattrs"]:
                 xl.append("%s=0x%s" % (k, v.hex()))
             xl.append("")
+    for lp, tp in t.links:
+        lines.append("link %s 0 0 0 %s" % (lp, tp))
     (d / "pack.txt").write_text("\n".join(lines) + "\n")
     (d / "xattr.txt").write_text("\n".join(xl) + "\n")
     return bool(xl)
@@ -1265,6 +1287,12 @@ def write_tar(t, path):
             ti.type, ti.linkname, ti.mtime = tarfile.LNKTYPE, p.lstrip("/"), 0
             tf.addfile(ti)
             links[p] = links.get(p, 0) + 1
+        for lp, tp in t.links:                      # hard links to fifos / symlinks / device nodes / files (tar has no sockets)
+            if t.nodes[tp]["type"] == "sock":
+                continue
+            ti = tarfile.TarInfo(lp.lstrip("/"))
+            ti.type, ti.linkname, ti.mtime = tarfile.LNKTYPE, tp.lstrip("/"), 0
+            tf.addfile(ti)
     return links
 
 
@@ -1313,7 +1341,130 @@ def describe(ctx, unz, img, devblk=4096, want_parse=True, payload=False):
             val = val + ["layout-model %s => model %s, image %s" % (line, pred, actual)]
     else:
         val = val + ["viol desc-super no superblock in the description"]
+    # the raw superblock and the compressor options block, for copt_problems (fields vs format.adoc and the command line)
+    dl = desc.splitlines()
+    val = val + ["info-super " + next((l.split(" ")[1] for l in dl if l.startswith("super ")), "-"),
+                 "info-copt " + next((l[len("m copt "):] for l in dl if l.startswith("m copt ")), "none")]
     return (val, par, blocks) if payload else (val, par)
+
+
+COMP_ID = {"gzip": 1, "lzma": 2, "lzo": 3, "xz": 4, "lz4": 5, "zstd": 6}
+GZIP_STRATEGY = {"default": 1, "filtered": 2, "huffman": 4, "rle": 8, "fixed": 16}
+XZ_FILTER = {"x86": 1, "powerpc": 2, "ia64": 4, "arm": 8, "armthumb": 16, "sparc": 32}
+
+
+def parse_size_opt(v, ref):
+    """lib/common/src/parse_size.c: bytes, K/M suffix, or a percentage of the block size"""
+    if v[-1] in "kK":
+        return int(v[:-1]) * 1024
+    if v[-1] in "mM":
+        return int(v[:-1]) << 20
+    if v[-1] == "%":
+        return int(v[:-1]) * ref // 100
+    return int(v)
+
+
+def expected_copt(comp, bs, xopts):
+    """The options block the command line asks for, from format.adoc "Compression Options" + the tools' -X syntax
+    (gensquashfs(1) / `-X help`): None = no block and flag 0x0400 clear (every option at its default), else the payload.
+    gzip: u32 level, u16 window, u16 strategies; xz: u32 dictionary size, u32 filters (level/lc/lp/pb/extreme are not
+    conveyed; `extreme` alone still makes the writer emit the block); lz4: u32 version 1, u32 flags (always present);
+    zstd: u32 level."""
+    kv, names = {}, []
+    for tok in (xopts.split(",") if xopts else []):
+        if "=" in tok:
+            k, v = tok.split("=", 1)
+            kv[k] = v
+        elif tok:
+            names.append(tok)
+    if comp == "gzip":
+        level, window = int(kv.get("level", 9)), int(kv.get("window", 15))
+        strat = 0
+        for n in names:
+            strat |= GZIP_STRATEGY[n]
+        return None if (level, window, strat) == (9, 15, 0) else struct.pack("<IHH", level, window, strat)
+    if comp == "xz":
+        # default: the block size, but never below SQFS_XZ_MIN_DICT_SIZE = 8 KiB (sqfs_compressor_config_init), so a 4 KiB
+        # image carries an options block with dictionary size 8192 even without -X
+        dict_size = parse_size_opt(kv["dictsize"], bs) if "dictsize" in kv else max(bs, 8192)
+        filt = 0
+        for n in names:
+            filt |= XZ_FILTER.get(n, 0)
+        return None if (dict_size == bs and not names) else struct.pack("<II", dict_size, filt)
+    if comp == "lz4":
+        return struct.pack("<II", 1, 1 if "hc" in names else 0)
+    if comp == "zstd":
+        level = int(kv.get("level", 15))
+        return None if level == 15 else struct.pack("<I", level)
+    return None
+
+
+def copt_range_problems(comp_id, pl):
+    """format.adoc "Compression Options": payload size and field ranges per compressor, whatever the command line was"""
+    bad = []
+    size = {1: 8, 4: 8, 5: 8, 6: 4, 3: 8}.get(comp_id)
+    if size is None:
+        return ["compressor id %d has no options block" % comp_id]
+    if len(pl) != size:
+        return ["options payload of %d bytes, the format has %d for compressor %d" % (len(pl), size, comp_id)]
+    if comp_id == 1:
+        level, window, strat = struct.unpack("<IHH", pl)
+        if not 1 <= level <= 9:
+            bad.append("gzip compression level %d not in 1..9" % level)
+        if not 8 <= window <= 15:
+            bad.append("gzip window size %d not in 8..15" % window)
+        if strat & ~0x1F:
+            bad.append("gzip strategies 0x%x has bits outside 0x001F" % strat)
+    elif comp_id == 4:
+        dict_size, filt = struct.unpack("<II", pl)
+        x = dict_size & (dict_size - 1)
+        if dict_size < 8192 or not (x == 0 or dict_size == (x | (x >> 1))):
+            bad.append("xz dictionary size %d is not >= 8 KiB and a power of two or the sum of two consecutive powers of two" % dict_size)
+        if filt & ~0x3F:
+            bad.append("xz filters 0x%x has bits outside 0x003F" % filt)
+    elif comp_id == 5:
+        version, flags = struct.unpack("<II", pl)
+        if version != 1:
+            bad.append("lz4 version %d, must be 1" % version)
+        if flags & ~1:
+            bad.append("lz4 flags 0x%x has bits other than 0x0001" % flags)
+    elif comp_id == 6:
+        level, = struct.unpack("<I", pl)
+        if not 1 <= level <= 22:
+            bad.append("zstd compression level %d not in 1..22" % level)
+    return bad
+
+
+def copt_problems(d, val):
+    """`viol copt-…` lines: the compressor options block of the image vs format.adoc and vs the job's command line"""
+    sup = next((v.split(" ", 1)[1] for v in val if v.startswith("info-super ")), "-")
+    co = next((v.split(" ", 1)[1] for v in val if v.startswith("info-copt ")), None)
+    if sup == "-" or co is None or len(sup) < 192:
+        return ["viol copt-desc no superblock / options line in the description"]
+    sb = bytes.fromhex(sup)
+    comp_id, flags = struct.unpack_from("<H", sb, 20)[0], struct.unpack_from("<H", sb, 24)[0]
+    out = []
+    xo = d["opts"][d["opts"].index("-X") + 1] if "-X" in d["opts"] else ""
+    want = expected_copt(d["comp"], d["bs"], xo)
+    if comp_id != COMP_ID[d["comp"]]:
+        out.append("viol copt-compressor super block names compressor %d, the command line %s" % (comp_id, d["comp"]))
+    have = bool(flags & 0x0400)
+    if have != (want is not None):
+        out.append("viol copt-presence `-c %s -X '%s'`: options block %s, expected %s" % (
+            d["comp"], xo, "present" if have else "absent", "absent (all defaults)" if want is None else want.hex()))
+    if have:
+        f = co.split(" ")               # <off> <len> <u|c> <status> <hex>
+        if co == "none" or len(f) < 5 or f[3] != "ok":
+            out.append("viol copt-block flag 0x0400 set but no readable metadata block at 96: %s" % co[:80])
+        else:
+            pl = bytes.fromhex(f[4]) if f[4] != "-" else b""
+            if f[0] != "96" or f[2] != "u":
+                out.append("viol copt-block options block at %s stored %s (must follow the super block, uncompressed)" % (f[0], f[2]))
+            for b in copt_range_problems(comp_id, pl):
+                out.append("viol copt-range " + b)
+            if want is not None and pl != want:
+                out.append("viol copt-fields `-c %s -b %d -X '%s'`: options payload %s, expected %s" % (d["comp"], d["bs"], xo, pl.hex(), want.hex()))
+    return out
 
 
 def layout_line(desc, devblk):
@@ -1400,6 +1551,12 @@ def compare_tree(t, parse_lines, via_tar=False, blocks=None, extra_links=None):
             bs = o["super"]["block_size"]
     want = dict(t.nodes)
     want.setdefault("/", {"type": "dir", "mode": 0o755, "uid": 0, "gid": 0})
+    nlinks = dict(extra_links or {})
+    for lp, tp in getattr(t, "links", []):
+        if via_tar and t.nodes[tp]["type"] == "sock":
+            continue
+        want[lp] = dict(t.nodes[tp], link_of=tp)       # a second name of the same inode: same type, attributes, xattrs
+        nlinks[tp] = nlinks.get(tp, 0) + 1
     tmap = {"dir": "dir", "file": "file", "slink": "slink", "cdev": "cdev", "bdev": "bdev", "fifo": "fifo", "sock": "sock"}
     nchk = 0
     for p, n in want.items():
@@ -1427,9 +1584,12 @@ def compare_tree(t, parse_lines, via_tar=False, blocks=None, extra_links=None):
         if n["type"] in ("cdev", "bdev") and o["dev"] != makedev(n["major"], n["minor"]):
             bad.append("%s: dev %d, expected %d" % (p, o["dev"], makedev(n["major"], n["minor"])))
         if n["type"] != "dir":
-            links = 1 + (extra_links or {}).get(p, 0)
+            links = 1 + nlinks.get(n.get("link_of", p), 0)
             if o["nlink"] != links:
                 bad.append("%s: link count %d, expected %d" % (p, o["nlink"], links))
+            tgt = got.get(n.get("link_of"))
+            if tgt is not None and o.get("ino") != tgt.get("ino"):
+                bad.append("%s: a hard link to %s has inode number %s, its target %s" % (p, n["link_of"], o.get("ino"), tgt.get("ino")))
         if not via_tar:
             wx = sorted((k, v.hex()) for k, v in n.get("xattrs", []))
             gx = sorted((k, v) for k, v in o["xattrs"]) if isinstance(o["xattrs"], list) else o["xattrs"]
@@ -1467,6 +1627,9 @@ def classify(ctx, job, viols, comp):
             continue
         if comp == "lz4" and code in ("meta-not-smaller", "data-not-smaller", "frag-not-smaller", "data-larger-than-input", "frag-larger-than-input"):
             report(ctx, K_D11, "lz4 images contain blocks stored compressed that are not smaller than their data: " + v[5:200], replay)
+        elif code.startswith("copt-"):          # own kind per compressor: one broken write_options must not hide another
+            report(ctx, "copt-%s:%s:%s" % (comp, code, vlib.sha(json.dumps(job["desc"], sort_keys=True))[:10]),
+                   "compressor options block differs from format.adoc / the command line: " + v[5:300], replay)
         elif code == "dir-name-too-long":
             report(ctx, K_D18, "image contains a directory entry name longer than 256 bytes: " + v[5:160], replay)
         else:
@@ -1513,6 +1676,18 @@ def image_jobs(ctx):
             if k % 4 == 0:
                 shp["third"] = n + 1
             job(shp, comps[k % 4] if not q else ["gzip", "zstd", "xz", "lz4"][k % 4], bs, [] if k % 5 else ["-T"], packdir=(k % 3 == 0))
+    # compressor options (-X): every write_options path; the options block is decoded and compared with the command line
+    # (copt_problems); the image goes through the whole validator and the content comparison like any other
+    xjobs = [("gzip", 4096, "level=3,window=12,filtered,rle"), ("gzip", 8192, "huffman"), ("gzip", 4096, "level=1"),
+             ("gzip", 4096, "window=9,default,fixed"), ("gzip", 4096, "level=9,window=15"),
+             ("xz", 16384, "dictsize=8192"), ("xz", 32768, "dictsize=50%,x86,arm"), ("xz", 16384, "extreme"),
+             ("xz", 65536, "dictsize=12K,level=3,lc=2,lp=1,pb=0,sparc"), ("xz", 8192, "level=1,lc=4,lp=0"),
+             ("xz", 8192, "powerpc,ia64,armthumb"),
+             ("zstd", 4096, "level=1"), ("zstd", 8192, "level=22"), ("zstd", 4096, "level=15"),
+             ("lz4", 4096, "hc")]
+    for k, (comp, bs, xo) in enumerate(xjobs if not q else xjobs[:4] + xjobs[5:8] + xjobs[9:10] + xjobs[11:12] + xjobs[13:]):
+        job({"kind": "mixed", "n": 14} if k % 3 else {"kind": "small-random"}, comp, bs,
+            ["-X", xo] + (["-T"] if k % 4 == 1 else []), tool="tar2sqfs" if k % 5 == 4 else "gensquashfs")
     job({"kind": "ids", "n": 300}, rng.choice(comps), 4096, [])
     # id table and export table of more than one metadata block (> 2048 ids, > 1024 inodes): the location lists
     job({"kind": "ids", "n": rng.choice([2049, 2100, 4100])}, rng.choice(comps), 4096, ["-e"] + nb())
@@ -1617,12 +1792,23 @@ def run_image_job(ctx, tools, unz, job, idx):
             val, par, blocks = describe(ctx, unz, img, devblk, payload=True)
         else:
             (val, par), blocks = describe(ctx, unz, img, devblk), None
-        res["viol"] = [v for v in val if v.startswith("viol ")]
+        cp = copt_problems(d, val)
+        res["copt"] = next((v for v in val if v.startswith("info-copt ")), "")
+        res["viol"] = [v for v in val if v.startswith("viol ")] + cp
         res["layout_bad"] = [v for v in val if v.startswith("layout-model ")]
         res["summary"] = next((v for v in val if v.startswith("summary")), "")
         if not job.get("ids65536") and t is not None:
             res["tree_bad"] = compare_tree(t, par, via_tar=(d["tool"] == "tar2sqfs"), blocks=blocks, extra_links=links)
             res["files_compared"] = sum(1 for n in t.nodes.values() if n["type"] == "file") if blocks is not None else 0
+            seen = {}
+            for l in par:
+                try:
+                    o = json.loads(l)
+                except ValueError:
+                    continue
+                if o.get("type") in ("fifo", "sock", "slink", "cdev", "bdev") and o.get("nlink", 1) > 1:
+                    seen[o.get("ino")] = 1
+            res["hardlinked_other"] = len(seen)
         if t is None and d["shape"]["kind"] == "packdir":
             # hard links must show up as several paths sharing one inode whose link count is the number of paths
             inos = {}
@@ -1778,10 +1964,18 @@ def images(ctx, tools, unz):
             if k in tot:
                 tot[k] += int(v)
         tot["files_compared"] = tot.get("files_compared", 0) + r.get("files_compared", 0)
+    copt, hl_other = {}, 0
+    for r in results:
+        if r["rc"] == 0 and r.get("copt") and not r["copt"].endswith(" none") and "-X" in r["job"]["desc"]["opts"]:
+            copt[r["job"]["desc"]["comp"]] = copt.get(r["job"]["desc"]["comp"], 0) + 1
+        hl_other += r.get("hardlinked_other", 0)
+    if not ctx.violations and (set(copt) != {"gzip", "xz", "lz4", "zstd"} or hl_other == 0):
+        raise vlib.CheckFailure("internal: options blocks written for -X only with %s; %d hard-linked non-regular inodes seen" % (sorted(copt), hl_other))
     packed = len(results) - refused
     if not results or packed == 0 or tot["inodes"] == 0 or tot["data_checked"] == 0 or tot.get("files_compared", 0) == 0:
         raise vlib.CheckFailure("internal: the image part validated nothing (%d jobs, %d packed, totals %s)" % (len(results), packed, tot))
-    return {"images": len(results), "images_refused": refused, "image_histogram": hist, "validator_violation_lines": nviol, "image_totals": tot,
+    return {"images": len(results), "images_refused": refused, "image_histogram": hist, "options_blocks_from_X": copt,
+            "hardlinked_non_regular_inodes": hl_other, "validator_violation_lines": nviol, "image_totals": tot,
             "image_samples": [{"job": r["job"]["desc"], "rc": r["rc"], "summary": r["summary"], "viol": r["viol"][:2]} for r in results[:3]]}
 
 
